@@ -9,7 +9,7 @@ NOTE = ("Trusted base: go/types, go/ssa, the VTA/CHA call graph (x/tools v0.29.0
         "it does not execute parsley code.")
 
 CLAIMED = {
- "C16": dict(ref="§4 C16", technique="abstract interpretation of the typed AST of json.NewParser (value-shape inference through constructors, wrappers, recursive references and interpreters) + truth-table equivalence of SepBy's length predicate over its atomic comparisons",
+ "C16": dict(ref="§4 C16", technique="abstract interpretation of the typed AST of json.NewParser (value-shape inference through constructors, wrappers, recursive references and interpreters) + truth-table equivalence of SepBy's length predicate over its atomic comparisons + regular-language inclusion between pattern constants and the JSON number syntax (Thompson automata, product subset construction) + loop-dominance rule in the Array/Object interpreters",
    text="Static shape inference deciding that the example grammar and the interpreters indexing into it agree: every alternative of the root evaluates to a JSON value type, no Select is out of range, Object() only sees key-value sequences with string keys, no sequence without interpreter is evaluated, SepBy alternates by parity and accepts exactly empty/odd chains. A necessary condition of agreement with encoding/json without panics; value agreement itself is a differential property and is not decided."),
  "C08": dict(ref="§4 C08", technique="panic-site inventory with taint classification of the immediate guard (configuration vs input), sibling agreement on conversion-error handling, Readf callback contract discharged by the linear-facts engine, provenance rules for node spans and decoded values, bounds obligations for package text/terminal",
    text="Static rules deciding, for all byte sequences and offsets, that no literal parser can panic on input (every explicit panic is configuration-guarded; conversion errors are returned; Readf's contract is satisfied by its callback including the invalid-UTF-8 rule; all index/slice expressions are in bounds), that every terminal returns a node xor an error, that nodes start at the parser's position and end at a Reader-returned one and take their value from Go's conversion. That the value equals Go's conversion of the LONGEST literal of the documented syntax (regexp semantics) is not decided."),
@@ -19,13 +19,13 @@ CLAIMED = {
    text="Static rules deciding, for all whitespace runs and mode assignments, that the code's mode table equals the statement's (which mode fails, with which error, at which position, under which run condition; exhaustive over the declared modes), that the skipped alphabet and the line-break subset are exactly those stated, that LeftTrim returns the sub-parser's own node called right after the run, that right-trimming moves only the end (per node, from its own end) and that whitespace errors win in Parse. Transparency of permitted whitespace as a relation between two parses is not decided."),
  "C06": dict(ref="§4 C06", technique="error-discipline rule (Engler-style) over all nested parser calls: forward value flow of the error result, guard-vocabulary check of the conditions under which it is kept, sink reachability (returned error / Context.SetError), loop-carried accumulator dependence; provenance rule for error positions",
    text="Static error-discipline rules deciding, for every grammar and input, that no combinator loses a failure (each nested call's error is kept under error/position conditions only, reaches a returned error or SetError, and accumulated errors are recorded on success) and that error positions are never fabricated by arithmetic. Decides a necessary condition of 'the reported position is the furthest failure'; equality with the maximum and the rendered line:column are not decided."),
- "C13": dict(ref="§4 C13", technique="structural SSA rules over the four tree passes: call-site inventory, argument identity, dominance of guards (guard vocabulary), loop-header dominance of returns, full-range index recognition",
+ "C13": dict(ref="§4 C13", technique="structural SSA rules over the four tree passes: call-site inventory, argument identity, dominance of guards (guard vocabulary), loop-header dominance of returns, full-range index recognition; Walk decided by path enumeration with an ordered event log (abort/callback/recursion order on every path)",
    text="Static structural rules deciding, for every tree shape, that Walk is post-order/exactly-once/abort-immediately (recursion through Walk itself over all children, Walkable delegation), StaticCheck aborts with the first error and records schemas behind err == nil with no foreign guard, Transform delegates to the node's transformer or rebuilds every child in place before returning the node, and Value hands the interpreter the node itself. Foreign node types are assumed to honour Children()/Walk."),
  "C04": dict(ref="§4 C04", technique="path-sensitive nilness abstract interpretation ({nil, non-nil, unknown} over enumerated CFG paths with phi resolution and branch pruning) at the API boundary and in every leaf/filter combinator; dominance checks for End/Evaluate",
    text="Static nilness analysis deciding, for every grammar and input, that parsley.Parse returns exactly one of a non-nil node or a non-nil error on every path, that Evaluate only evaluates behind success, that every leaf parser returns a node xor an error, that End requires IsEOF and Sentence is SeqOf(p, End()), and that no alternation/filter combinator returns a node together with a stale error. Completeness ('succeeds precisely when some parse consumes the whole input') is not decided."),
  "C12": dict(ref="§4 C12", technique="type-level parametricity: translation-coefficient inference (linear constraints over all integer SSA values, fields, parameters and interface method slots; union-find + propagation)",
    text="Static inference of how every integer of the library moves with the file's base offset; consistency of the constraint system is a parametricity proof sketch that parsing is invariant under placement (same control flow and trees, positions shifted by the offset difference, line:column unchanged), for all inputs and placements. Also decides that no placement-dependent value leaks into text or is cached outside File/FileSet/results. Does not decide C11's line/column arithmetic."),
- "C01": dict(ref="§4 C01", technique="ownership dataflow on alternative lists + forward value flow of curtailing sets (field-based) + guard dominance on context resets + shape/operand analysis of ResultCache.Get",
+ "C01": dict(ref="§4 C01", technique="ownership dataflow on alternative lists + forward value flow of curtailing sets (field-based) + guard dominance on context resets + path enumeration of ResultCache.Get with comparison-site and loop-exhaustion events + finite-domain folding of the sequence length predicates",
    text="Static rules deciding four structural lemmas of the Frost-Hafiz-Callaghan argument, each a necessary condition of completeness, for every grammar and input: no aliasing in alternative lists, curtailing-set propagation through every combinator, context/merge-flag reset only after progress, and the cache reuse condition (stored context, faithful replay, direction and key range of the reuse test). Soundness/completeness of the returned trees as a whole is not decided."),
  "C03": dict(ref="§4 C03", technique="dominance/post-dominance pairing of lookup-run-save in memoizing parsers, def-use of the cache key, who-may-construct scan for non-empty IntSets, effect scan for nondeterminism sources, map-range shape classification",
    text="Static rules deciding, for every grammar and input: the wrapped parser runs only on a cache miss and its result is always saved under the lookup's key; stored, replayed and returned values are the wrapped call's own results; keys are unique per Memoize call; without left recursion all contexts are empty so entries are always reusable; the stored context is pruned exactly; parse-time code has no source of nondeterminism; cache entries are immutable. Equality of memoized and plain result lists as a relation between two executions is not decided."),
@@ -35,8 +35,8 @@ CLAIMED = {
    text="Static ownership analysis: every write to node fields, node-list elements and cache entries in code reachable from any Parser.Parse targets storage allocated by the writing activation; result handlers do not retain the scratch slice; the cache stores exactly what it returns. Close to sufficient for 'a returned result is never modified afterwards' under A-user/A-alias, for all grammars/inputs/request orders. One genuine defect (RightTrim) is a recorded known finding."),
  "C14": dict(ref="§4 C14", technique="effect analysis on shared locations: package-level variables, captured variables of escaping closures, receivers of Parse methods (ownership engine + escape use-walk)",
    text="Static effect analysis: parse-time and construction-time library code writes no package-level variable (except single sync/atomic read-modify-write), no captured variable of a closure that outlives its constructor, and no receiver of a Parse method. Decides, for all interleavings, the fact that makes runs with their own Context/Reader race-free; no schedule is explored."),
- "C15": dict(ref="§4 C15", technique="ownership/freshness dataflow restricted to package data (write summaries of exported operations must be empty; results must not alias internal storage)",
-   text="Static ownership analysis of package data: no exported IntSet/IntMap operation writes memory reachable from its receiver or arguments; no raw internal slice/map escapes; the shared empties are never written. Decides the 'never mutated in place' half for all operation histories; value correctness of the operations is not decided."),
+ "C15": dict(ref="§4 C15", technique="ownership/freshness dataflow restricted to package data (write summaries of exported operations must be empty; results must not alias internal storage) + guard-vocabulary rule on map updates (membership only, never a stored value)",
+   text="Static ownership analysis of package data: no exported IntSet/IntMap operation writes memory reachable from its receiver or arguments; no raw internal slice/map escapes; the shared empties are never written. Decides the 'never mutated in place' half for all operation histories; value correctness of the operations is not decided beyond one structural clause (map entries are copied whatever their value)."),
 }
 
 NA = {
